@@ -932,6 +932,11 @@ func (C07) RunSeed(tier string, seed uint64, idx int) *core.Result {
 		sc := &c07Scenario{Kind: "stream", Parts: genParts(r), CRLF: r.Chance(1, 6)}
 		sc.Pipe = simpipe.Spec{Chunks: genChunks(r), CutAt: -1}
 		m := sc.build()
+		if r.Chance(1, 5) && len(m.bounds) > 1 {
+			// reads that end on (or one byte off) every record boundary
+			sc.Pipe.Chunks = simpipe.AlignedChunks(m.bounds[1:], r.Range(-1, 1), 4096)
+			res.Probes["record_aligned_chunk_schedules"]++
+		}
 		x.setBase(m)
 		n := len(m.data)
 		var offs []int
